@@ -476,6 +476,33 @@ def laws(rng, tier, ctx):
                 want = Counter(tuple(canon_py(d[c][i]) for c in xn) + (strict(colkey[i]), strict(d['z'][i])) for i in range(n))   # colkey: y rendered as column key (of its group's representative: '1' or 1.0 for 1 beside 1.0)
                 if got != want:
                     msg = 'unpivot(pivot) without the None cells is not the original (x, y, z) rows with y rendered as column keys'
+        if msg is None and len(Q) >= 1:
+            # the pivot result is a TABLE (its column keys are the y values: floats, None, datetimes beside the string x names): the row operations of
+            # C01 / C06 must work on it - a mask / a filter keeping every row, a filter keeping none (all columns stay), concatenation with itself
+            count += 1
+            kq = list(Q.keys())
+            allx = list(Q[xn[0]])
+            snap = lambda T: strict([list(T[k]) for k in kq])   # noqa: E731
+            try:
+                M = guarded(lambda: Q[[True] * len(Q)])
+                I = guarded(lambda: Q.inc({xn[0]: allx}))
+                E = guarded(lambda: Q.exc({xn[0]: allx}))
+                A = guarded(lambda: Q + Q)
+                if set(M.keys()) != set(kq) or snap(M) != snap(Q):
+                    msg = 'pivot result p: p[[True]*len(p)] is not p'
+                elif set(I.keys()) != set(kq) or snap(I) != snap(Q):
+                    msg = 'pivot result p: p.inc({x: all x values}) is not p'
+                elif set(E.keys()) != set(kq) or len(E) != 0:
+                    msg = 'pivot result p: p.exc({x: all x values}) has columns %r (p has %r) and %d rows' % (list(E.keys()), kq, len(E))
+                elif set(A.keys()) != set(kq) or len(A) != 2 * len(Q):
+                    msg = 'pivot result p: p + p has columns %r and %d rows' % (list(A.keys()), len(A))
+            except Timeout:
+                msg = 'a row operation on the pivot result did not return'
+            except Exception as e:
+                msg = 'pivot result p (column keys %r): mask / inc / exc / p + p raised %s: %s' % (kq, type(e).__name__, str(e)[:80])
+            if msg:
+                yield Finding('violation', dict(case, tag='law-pivot-result-is-a-table-y-' + ykind), msg)
+                continue
         if msg:
             yield Finding('violation', case, msg)
     yield count
